@@ -176,7 +176,20 @@ def monitorProbed (script : List Cmd) (iters : List Iter) (d : Nat) (answersOnly
       -- (since the repair of D37 an SRV whose target changed after a response was read carries the
       -- NEW host name: what is left is that it is sent - the service is still Announced - while
       -- the re-targeted record is being probed again: D45)
-      if staleSrv then some s!"re-targeted-SRV-answered-while-it-is-probed-again {what}"
+      -- the name was taken from us by a conflict (NameChange event old -> new before this packet)
+      -- and no registration asked for it again since
+      let lostAt := (iters.zipIdx.filterMap fun ((it, k) : Iter × Nat) =>
+        if it.d != d || k ≥ p.k then none else
+        if it.evs.any fun ((_, toks) : Nat × List String) =>
+          match toks with
+          | ["namechange", o, _, _, _] => (bytesOfHex o).map lower == some (lower r.name)
+          | _ => false
+        then some k else none).getLast?
+      let lostName := match lostAt with
+        | some k => !(owners.any fun o => o.1 > k)
+        | none => false
+      if lostName then some s!"answers-under-the-name-it-lost-in-a-conflict {what}"
+      else if staleSrv then some s!"re-targeted-SRV-answered-while-it-is-probed-again {what}"
       else if renamedName && probedBy asked p.t then some s!"record-missing-from-first-probe-after-rename {what}"
       else if sameInst then some s!"answered-while-address-still-probing {what}"
       else if timeJump then some s!"announced-with-fewer-than-three-probes-late-iteration {what}"
